@@ -26,15 +26,15 @@ TEXT = {
          'Bounded: leaf/inner slots 4/4, depth <= 2 before and after (no growth to depth 3, no inner-level rebalancing inside a whole-tree job), 8-bit keys, set/multiset only; mutating whole-tree operations once per tuple of leaf fill degrees (keys symbolic; quick: the tuples reaching each leaf-level case, thorough: every tuple for roots with 1-2 separators). NOT decided: erase(iterator) on a multiset under an inner root, erase(key) of all duplicates, map/multimap, copy/assign/swap/bulk_load/comparisons. Whole-tree jobs: assert-mode enforcement (assigns not checked), pointer and bounds checks only.'),
  'C02': ('the same jobs as C01: the verify()-conditions as representation invariant (uniform depth, fill, order, separators, leaf chain, stats) after every mutating operation, and the node allocation ledger (live blocks == nodes; freed nodes never touched)',
          'Bounded as C01: slots 4/4, depth <= 2, set/multiset over 8-bit keys; element types with non-trivial lifetimes not covered.'),
- 'C05': ('the property statement as contract of every entry point and algorithm variant: returns target+size, inputs advanced by size in total and within range, output ordered (stable: ties in (sequence, position) order), output == exactly the taken elements, nothing smaller left behind; tagged elements and ghost indices',
-         'Bounded: k <= 5 sequences of length <= 2 (3 for k <= 2). Assert-mode enforcement.'),
+ 'C05': ('PARTIAL: the property statement (returns target+size, inputs advanced by size in total and within range, output ordered, stable: ties in (sequence, position) order, output == exactly the taken elements, nothing smaller left behind; tagged elements, ghost indices) as contract of merge_advance, of multiway_merge_base for k = 1 and k = 2 with every algorithm value, and of multiway_merge_loser_tree_sentinel (quick) / multiway_merge_loser_tree (thorough) called directly with k = 3',
+         'Bounded: sequences of length <= 3 (k <= 2) / <= 2 (k = 3), all keys, all sizes. NOT decided: k >= 3 through multiway_merge_base and the public entry points (3/4-way goto state machines, combined variants, bubble, k >= 5): symbolic execution does not finish; two of three seeded changes live there and are not detected. Assert-mode enforcement.'),
  'C19': ('hexdump / hexdump_lc / parse_hexdump and base64_encode / decode against RFC 4648 and their round trips; to_lower / to_upper (all 256 characters), starts/ends_with (+icase), contains, compare_icase, trim family with a drop set, levenshtein (+icase) against transcriptions of their documented definitions',
          'Bounded: strings <= 6 bytes (base64: one job per length 0..6; levenshtein <= 3x3). NOT under contract: split / join / split_quoted / join_quoted, replace_*, erase_all, pad, lax base64 decoding. Assert-mode enforcement; std::string heap path stubbed as must-not-be-reached.'),
  'C09': ('tournament invariant (replayed bottom-up from the stored losers) established by construction and preserved by delete_min_insert from every well-formed state, for all 8 classes; the invariant implies the winner property (lemma job)',
          'Bounded configuration k <= 8 players; histories unbounded by induction. Unguarded variants under their documented precondition.'),
 }
 # properties whose checks have been run to completion on the unchanged tree (exit 0); extend as checks are validated
-CLAIMED = ['C01', 'C02', 'C09', 'C11', 'C12', 'C13', 'C14', 'C15', 'C16', 'C17', 'C18', 'C19', 'C20']
+CLAIMED = ['C01', 'C02', 'C05', 'C09', 'C11', 'C12', 'C13', 'C14', 'C15', 'C16', 'C17', 'C18', 'C19', 'C20']
 
 def technique(mod):
     modes = set(j.mode for j in mod.jobs('thorough'))
